@@ -322,23 +322,31 @@ def record_and_validate_machine(ck, scenarios, tag, jit=False, shards=8, cold=Fa
     ck.count(nsteps)
     ck.nontrivial_count += nsteps
     if validate:
-        jobs = [dict(module="Trace_Machine", env={"TRACE": tp}, dfs=True, check=False, timeout=3000, xmx="3g") for tp in files]
-        rs = vlib.tlc_parallel(jobs)
-        for tp, r in zip(files, rs):
-            ck.add_tlc("Trace_Machine", r, mc=True)
-            if r.printed("TRACE_OK"):
-                continue
-            rej = r.printed("TRACE_REJECTED")
-            if not rej:
-                raise ToolError("Trace_Machine gave no verdict on %s:\n%s" % (tp, "\n".join(r.text.splitlines()[-30:])))
-            keep = os.path.join(vlib.REPLAY, ck.prop)
-            os.makedirs(keep, exist_ok=True)
-            import shutil
-            kept = os.path.join(keep, os.path.basename(tp))
-            shutil.copy(tp, kept)
-            ck.mismatch({"kind": "trace-rejected", "tag": tag, "jit": jit, "line": rej[0][:3000], "trace": kept}, "trace-" + tag)
+        validate_traces(ck, files, validate if isinstance(validate, str) else "Trace_Machine", tag, jit)
         ck.traces += len(scenarios)
     return files
+
+
+def validate_traces(ck, files, module, tag, jit=False):
+    jobs = [dict(module=module, env={"TRACE": tp}, dfs=True, check=False, timeout=3000, xmx="3g") for tp in files]
+    rs = vlib.tlc_parallel(jobs)
+    allok = True
+    for tp, r in zip(files, rs):
+        ck.add_tlc(module, r, mc=True)
+        if r.printed("TRACE_OK"):
+            continue
+        allok = False
+        rej = r.printed("TRACE_REJECTED")
+        if not rej:
+            raise ToolError("%s gave no verdict on %s:\n%s" % (module, tp, "\n".join(r.text.splitlines()[-30:])))
+        keep = os.path.join(vlib.REPLAY, ck.prop)
+        os.makedirs(keep, exist_ok=True)
+        import shutil
+        kept = os.path.join(keep, os.path.basename(tp))
+        shutil.copy(tp, kept)
+        ck.mismatch({"kind": "trace-rejected", "validator": module, "tag": tag, "jit": jit, "line": rej[0][:3000], "trace": kept},
+                    "trace-%s-%s" % (module, tag))
+    return allok
 
 
 # ------------------------------------------------------------------- C08
@@ -359,3 +367,28 @@ def c08(ck):
     ck.sample({k: scs[777][k] for k in ("id", "rom", "cpu", "ime", "init_writes", "steps")})
     files = record_and_validate_machine(ck, scs, "c08", jit=False, shards=12)
     ck.sample({"trace_excerpt": head_lines(files[0], 4)[1:]})
+
+
+# ------------------------------------------------------------------- C09
+@prop("C09")
+def c09(ck):
+    import gbprog
+    thorough = ck.tier == "thorough"
+    rng = random.Random(vlib.seed() + 9)
+    ck.rule = ("machine traces recorded instruction-stepped (build without jit), block-stepped (run_code_block, build without "
+               "jit) and in the jit build, over interrupt/halt-heavy programs and structured programs; the time projection of "
+               "every step (CPU-reported cycles, clocks delivered to timer/LCD/DMA, pending dispatch cycles) validated against "
+               "Clock.tla by Trace_Clock, including run_frame calls; each step is a case")
+    mc = tlc("MC_Clock", workers=6, coverage=True, timeout=1800)
+    ck.add_tlc("MC_Clock", mc)
+    ck.require_coverage(mc, ["Step", "Halted"])
+    n = 4000 if thorough else 500
+    scs = gbprog.c08_all(3, rng) + gbprog.c08_random(n, 30, rng) + gbprog.structured_programs(n // 4, rng)
+    for i, s in enumerate(scs):
+        s["frames"] = 2 if i % 4 == 0 else 0
+    ck.extra["programs"] = len(scs)
+    for tag, jit, mode in [("instr", False, "update"), ("block", False, "block"), ("jit", True, "update")]:
+        ss = [dict(s, mode=mode) for s in scs]
+        files = record_and_validate_machine(ck, ss, "c09" + tag, jit=jit, shards=8, validate="Trace_Clock")
+        if tag == "instr":
+            ck.sample({"trace_excerpt": head_lines(files[0], 5)[1:]})
